@@ -95,6 +95,14 @@ pub fn alphabet(f: &F) -> Vec<(&'static str, String)> {
         ("unterminated-compound", format!("{}{}{} a", c.brackets.0, c.connecter_conjunction, c.separator)),
         ("unterminated-statement", format!("{}a {}", e.statement.brackets.0, e.statement.copula_inheritance)),
         ("two-terms", "a b1".to_string()),
+        // a bare atom whose last character begins a copula (ASCII/LaTeX '-', Han 将): the atom-name
+        // look-ahead peeks beyond the name, so stale characters of an earlier, longer input matter
+        ("atom-ending-in-copula-head", if f.name == "han" { "乙将".to_string() } else { "ab-".to_string() }),
+        ("implication-term", term(&R::pair(Tag::Impl, R::word("a"), R::word("b1")))),
+        ("equivalence-term", term(&R::pair(Tag::Equiv, R::word("a"), R::word("b1")))),
+        // whitespace other than the format's own space around a valid sentence
+        ("newline-wrapped-sentence", format!("\nb1{}\n", s.punctuation_judgement)),
+        ("tab-led-term", "\ta".to_string()),
         ("empty", String::new()),
         ("space", " ".to_string()),
         ("garbage", c.brackets.1.to_string()),
@@ -272,7 +280,7 @@ pub fn check_lexical_sequence(f: &F, inputs: &[&str]) -> Result<(), String> {
 
 pub fn run(run: &Run) {
     run.rule(
-        "per format an alphabet of 26 inputs (complete task/sentence/term, budget-/truth-/stamp-/\
+        "per format an alphabet of 31 inputs (complete task/sentence/term, budget-/truth-/stamp-/\
          punctuation-only fragments, term without punctuation, out-of-range truth/budget after a \
          filled term, unterminated brackets, empty, garbage); stateright BFS over the residue of \
          the real reused parser to a fixpoint, every transition compared with a fresh parse; every \
